@@ -100,6 +100,46 @@ Proof.
   - rewrite (IHa r s l Hs Ha). reflexivity.
 Qed.
 
+(* evaluation never reports an out-of-container read, provided calls do not *)
+Lemma eval_bin_no_oob o x y : eval_bin o x y <> Err EOOBRead.
+Proof.
+  destruct x as [a ta], y as [b tb]. unfold eval_bin, arith.
+  destruct o; repeat match goal with |- context [if ?c then _ else _] => destruct c end; discriminate.
+Qed.
+Lemma eval_un_no_oob o x : eval_un o x <> Err EOOBRead.
+Proof.
+  destruct x as [a ta]. unfold eval_un, arith.
+  destruct o; repeat match goal with |- context [if ?c then _ else _] => destruct c end; discriminate.
+Qed.
+
+Lemma eval_no_oob e : (forall tg m s, call tg m s <> Err EOOBRead) ->
+  forall s l, eval cs call s l e <> Err EOOBRead.
+Proof.
+  intros Hcall.
+  induction e as [z t|f|f|f|n|x|o a IHa|o a IHa b IHb|c IHc a IHa b IHb|t a IHa|tg m];
+    intros s l; cbn [eval].
+  - discriminate.
+  - destruct (find_field cs f) as [x|]; [|discriminate]. destruct (s f); try discriminate.
+    destruct (f_kind x); discriminate.
+  - destruct (find_field cs f) as [x|]; [|discriminate]. destruct (s f); discriminate.
+  - destruct (find_field cs f) as [x|]; [|discriminate]. destruct (ksize (f_kind x)); discriminate.
+  - discriminate.
+  - destruct (l x); discriminate.
+  - specialize (IHa s l). destruct (eval cs call s l a); cbn [bind]; [apply eval_un_no_oob|exact IHa].
+  - specialize (IHa s l). specialize (IHb s l).
+    destruct o;
+      try (destruct (eval cs call s l a); cbn [bind]; [|exact IHa];
+           destruct (eval cs call s l b); cbn [bind]; [apply eval_bin_no_oob|exact IHb]).
+    + destruct (eval cs call s l a) as [xa|]; cbn [bind]; [|exact IHa].
+      destruct (fst xa =? 0); [discriminate|]. destruct (eval cs call s l b); cbn [bind]; [discriminate|exact IHb].
+    + destruct (eval cs call s l a) as [xa|]; cbn [bind]; [|exact IHa].
+      destruct (fst xa =? 0); [|discriminate]. destruct (eval cs call s l b); cbn [bind]; [discriminate|exact IHb].
+  - specialize (IHc s l). destruct (eval cs call s l c) as [xc|]; cbn [bind]; [|exact IHc].
+    destruct (fst xc =? 0); [apply IHb|apply IHa].
+  - specialize (IHa s l). destruct (eval cs call s l a); cbn [bind]; [discriminate|exact IHa].
+  - apply Hcall.
+Qed.
+
 (* ---------- symbolic counts ---------- *)
 (* CSize f k: (number of elements of container f) * k *)
 Inductive cnt := CSize (f k : Z).
